@@ -228,6 +228,10 @@ pub struct GroupCfg {
     pub initial_spelled: Vec<(u8, u64, bool)>,
     /// offer updates that name member 0 in lower and in UPPER case bech32 spelling
     pub case_variants: bool,
+    /// instantiate the group without an admin (immutable from the start)
+    pub no_admin: bool,
+    /// offer `UpdateAdmin{None}` by the admin (the group is frozen afterwards, its history must stay)
+    pub clear_admin: bool,
     pub hmax: u64,
 }
 
@@ -236,6 +240,8 @@ pub enum GAct {
     Update { add: Vec<(u8, u64)>, remove: Vec<u8> },
     /// an update whose entries carry a spelling flag (true = the address in UPPER case)
     UpdateSpelled { add: Vec<(u8, u64, bool)>, remove: Vec<(u8, bool)> },
+    /// `UpdateAdmin{admin: None}` by the admin
+    ClearAdmin,
     Advance,
 }
 
@@ -320,7 +326,7 @@ impl Model for GroupHist {
         w.time_s = T0;
         w.dispatch = false;
         let msg = cw4_group::msg::InstantiateMsg {
-            admin: Some(Self::admin()),
+            admin: if cfg.no_admin { None } else { Some(Self::admin()) },
             members: if cfg.initial_spelled.is_empty() {
                 cfg.initial.iter().map(|(i, wt)| Member { addr: a(cfg.names[*i as usize]), weight: *wt }).collect()
             } else {
@@ -388,6 +394,9 @@ impl Model for GroupHist {
             // the same address twice in the remove list
             out.push(GAct::Update { add: vec![], remove: vec![0, 0] });
         }
+        if cfg.clear_admin {
+            out.push(GAct::ClearAdmin);
+        }
         if cfg.case_variants {
             let (w0, w1) = (cfg.weights[0], *cfg.weights.last().unwrap());
             out.push(GAct::UpdateSpelled { add: vec![(0, w1, false), (0, w0.max(1), true)], remove: vec![] });
@@ -411,6 +420,16 @@ impl Model for GroupHist {
                 r.starts.push(r.cur.clone());
                 w.advance(1, DT);
                 ("AdvanceBlock", true)
+            }
+            GAct::ClearAdmin => {
+                let out = w.execute_json(
+                    &Self::admin(),
+                    &a(GROUP),
+                    &cw4_group::msg::ExecuteMsg::UpdateAdmin { admin: None },
+                    &[],
+                );
+                // membership and its history are untouched by a change of the admin
+                ("UpdateAdmin{None}", out.ok())
             }
             GAct::UpdateSpelled { add, remove } => {
                 let msg = cw4_group::msg::ExecuteMsg::UpdateMembers {
